@@ -30,6 +30,10 @@ FILESETS = [
     {"a.json": X1, "b.json": X2},               # XML content named .json
     {"a": J1, "b.plist": J2},
     {"a.json": J1, "b.json": J1},               # identical
+    {"a.json": "1", "b.json": "2"},             # top-level scalars that differ (a non-zero-cost Match at the root)
+    {"a.json": '"a"', "b.json": '"b"'},
+    {"a.json": "true", "b.yaml": "false"},
+    {"a.json": "[1, 2]", "b.json": "7"},        # container replaced by a scalar at the root
 ]
 
 
@@ -58,7 +62,7 @@ def _argv(args, names):
     for flag, opt in (("k", "-k"), ("l", "-l"), ("ll", "-ll"), ("j", "-j"), ("jl", "-jl"), ("jd", "-jd")):
         if args.get(flag):
             av.append(opt)
-    av += ["--no-status"]
+    av += ["--no-status"] + list(args.get("extra", []))
     return av + list(names)
 
 
@@ -95,6 +99,11 @@ def gen(rng, tier):
         cases.append(_mk(fs, [dict(base), dict(base, dict_strategy="auto")], [[0, 1]], lib=True))
         cases.append(_mk(fs, [dict(base, l=True)], lib=True))
         cases.append(_mk(fs, [dict(base, ll=True, dict_strategy="match")], lib=True))
+    # (2b) `-f T` with T the type of the FROM file is the default formatter (help text of --format), in every mode
+    for fs, ft, tt in ((FILESETS[2], "json", "yaml"), (FILESETS[0], "json", "json5"), (FILESETS[0], "yaml", "json"), (FILESETS[3], "xml", "html")):
+        for mode in ([], ["-d"], ["-e"]):
+            base = {"from_type": ft, "to_type": tt}
+            cases.append(_mk(fs, [dict(base, extra=mode), dict(base, extra=mode + ["-f", ft])], [[0, 1]], lib=(mode == [])))
     # (3) the selection cross product (exhaustive in thorough, sampled in quick)
     pairs = [(a, b) for a in sels for b in sels]
     if tier == "quick":
